@@ -322,6 +322,7 @@ def run(ctx):
         reqs3.append(e["req"])
     # 4. record validation + 5. writing (implementation only)
     validation_and_writer(ctx, out, rng)
+    many_errors_cases(ctx, out)
     # the same entry points by their other public routes (own random streams: the ones above are unchanged)
     via_reqs, via_answers = entry_point_routes(ctx, out)
     # correspondence of the three-mode runs
@@ -402,6 +403,34 @@ def entry_point_routes(ctx, out):
     return via_reqs, via_answers
 
 
+MANY_ERRORS = ["130 malformed header lines", "10050 lines with a wrong field count", "a misspelt column line and 10050 bad lines"]
+
+
+def many_errors_lines(label):
+    sch = impl.scheme_by_annotation("gdc-1.0.0")
+    col = "\t".join(sch.column_names())
+    return {MANY_ERRORS[0]: ["#k%d" % k for k in range(130)] + ["#version gdc-1.0.0", col, "\t".join(["x"] * len(sch.column_names()))],
+            MANY_ERRORS[1]: ["#version gdc-1.0.0", "#bad", col] + ["a\tb"] * 10050,
+            MANY_ERRORS[2]: ["#version gdc-1.0.0", col.lower()] + ["a\tb"] * 10050}[label]
+
+
+def many_errors_cases(ctx, out):
+    """Counts of errors well beyond any round number: a header with 130 malformed lines (one report), a record with more
+    than 100 problems, a file with more than 10000 bad lines (one report per line).  The three relations hold whatever
+    the number of errors: nothing is capped, dropped or evicted."""
+    for label in MANY_ERRORS:
+        lines = many_errors_lines(label)
+        e = eval_file(lines)
+        out.evaluations += 3
+        for f in e["failures"]:
+            # (the file is its description: 10 000 identical lines are not stored in the failure)
+            f["lines"] = lines[:6] + ["... (%d lines in all: %s)" % (len(lines), label)]
+            f["many_errors"] = label
+        out.failures += e["failures"]
+        out.distribution["many errors: " + label] += 1
+        out.nontrivial.add(("many-errors", label))
+
+
 def validation_and_writer(ctx, out, rng):
     for ann in ["gdc-1.0.0", "gdc-1.0.0-public"]:
         for line in colcases.line_cases(ann, rng, ctx.scale(40, 300)):
@@ -475,6 +504,8 @@ def replay_case(ctx, failure):
         route = f.get("route", "list")
         if route not in impl.READER_ROUTES:
             return None
+        if f.get("many_errors") in MANY_ERRORS:
+            f = dict(f, lines=many_errors_lines(f["many_errors"]))       # the file is regenerated from its description
         e = eval_file(f["lines"], f["given"], f["given_norestrict"], route, f.get("final", True))
         if route != "list":
             answers = [e["res"]]
